@@ -111,6 +111,12 @@ IndirectCall(c, way) ==
          \* x <= 127 and for x = 128 exactly at a multiple of 255 (the rounding boundary); used only where it is the identity
          [] way = 4 -> << Mk("SetCSel", 0, 0, 41), [c EXCEPT !.role = "none"], Mk("SetCSel", 0, 0, 0),
                           [c EXCEPT !.c = << 3, 1, 192 + 41, 127, 0 >>] >>
+         \* palette entry 3 after register 3 was overwritten with another colour (round 10): an index into the palette
+         \* means the palette of this graphic, whatever the registers hold by now
+         [] way = 5 -> << Mk("SetCSel", 0, 0, 3), [c EXCEPT !.role = "none", !.c = << 0, 9, 8, 7, 255 >>], Mk("SetCSel", 0, 0, 0),
+                          [c EXCEPT !.c = << 1, 3, 0, 0, 0 >>] >>
+         \* register 3 as Reset left it (round 10): the palette entry, read through a register reference without any write before
+         [] way = 6 -> << [c EXCEPT !.c = << 2, 3, 0, 0, 0 >>] >>
 RECURSIVE IndirectProg(_, _, _)
 IndirectProg(P, i, way) == IF i > Len(P) THEN << >> ELSE IndirectCall(P[i], way) \o IndirectProg(P, i + 1, way)
 (* way 1 needs the colour in the palette: only when the program has a single flat colour *)
@@ -119,9 +125,9 @@ Blend1Id(c) == \A ch \in 1..4 : BlendCh(1, c[ch], 0) = c[ch]
 IndirectVariant(way) ==
   IF way = 4 THEN
      (IF \A c \in FlatC : Blend1Id(c) THEN << Prog[1] >> \o IndirectProg(Prog, 2, 4) ELSE Prog)
-  ELSE IF way = 1 THEN
+  ELSE IF way \in {1, 5, 6} THEN
      (IF Cardinality(FlatC) = 1
-        THEN << ResetCall([DefaultPalette EXCEPT ![4] = CHOOSE c \in FlatC : TRUE]) >> \o IndirectProg(Prog, 2, 1)
+        THEN << ResetCall([DefaultPalette EXCEPT ![4] = CHOOSE c \in FlatC : TRUE]) >> \o IndirectProg(Prog, 2, way)
         ELSE Prog)
   ELSE << Prog[1] >> \o IndirectProg(Prog, 2, way)
 
@@ -141,7 +147,7 @@ ScaleSame == done => \A k \in {-1, 1, 2} :
                LET a == Log(Prog, Rect0)  b == Log(ScaleProg(Prog, k), Rect0) IN
                /\ Len(a) = Len(b)
                /\ \A j \in 1..Len(a) : a[j].k = b[j].k /\ a[j].p = b[j].p
-IndirectSame == done => \A way \in 1..4 : Log(IndirectVariant(way), Rect0) = Log(Prog, Rect0)
+IndirectSame == done => \A way \in 1..6 : Log(IndirectVariant(way), Rect0) = Log(Prog, Rect0)
 TranslateSame == done => LET a == Log(Prog, Rect0)  b == Log(Prog, << 7, 5, 135, 133 >>) IN
                          Len(a) = Len(b) /\ \A j \in 1..Len(a) : a[j].k = b[j].k /\ a[j].p = b[j].p
 NDraws == Cardinality({ j \in 1..Len(Log(Prog, Rect0)) : Log(Prog, Rect0)[j].k = "Draw" })
@@ -151,5 +157,5 @@ Strip(P) == [i \in 1..Len(P) |-> [op |-> P[i].op, adj |-> P[i].adj, incr |-> P[i
 Emit == done => PrintT(ToJson([diag |-> "pixels", prog |-> Strip(Prog), ndraws |-> NDraws,
                                \* -15, +14: far off the model's 1/64 lattice (not covered by ScaleSame), same exactness argument
                                scaled |-> [k \in {-15, -1, 1, 2, 14} |-> Strip(ScaleProg(Prog, k))],
-                               indirect |-> [w \in 1..4 |-> Strip(IndirectVariant(w))]]))
+                               indirect |-> [w \in 1..6 |-> Strip(IndirectVariant(w))]]))
 =============================================================================
